@@ -37,7 +37,9 @@ type genState struct {
 
 var intPool = []int64{0, 1, -1, 2, 3, 5, 7, 10, 42, 100, -100, 255, 256, 1000, math.MaxInt64, math.MinInt64, math.MaxInt64 - 1, math.MinInt64 + 1, 1 << 31, -(1 << 31), 1<<32 + 1}
 var floatPool = []float64{0, math.Copysign(0, -1), 1, -1, 0.5, -0.5, 1.5, 2.5, -2.5, 3.25, 100, -100, 5e-324, -5e-324, 2.2250738585072014e-308, math.MaxFloat64, -math.MaxFloat64, math.Inf(1), math.Inf(-1), 1e-10, 1e10, 0.1, 0.2, 0.30000000000000004}
-var strPoolBase = []string{"a", "A", "ab", "Ab", "aB", "AB", "abc", "abd", "b", "B", "ba", "apple", "Apple", "APPLE", "apples", "banana", "Banana", "cherry", "z", "Z", "zz", "é", "É", "ß", "straße", "STRASSE", "İstanbul", "istanbul", "日本", "日本語", "a b", "a-b", "a.b", "0", "1", "10", "2", "~"}
+var strPoolBase = []string{"a", "A", "ab", "Ab", "aB", "AB", "abc", "abd", "b", "B", "ba", "apple", "Apple", "APPLE", "apples", "banana", "Banana", "cherry", "z", "Z", "zz", "é", "É", "ß", "straße", "STRASSE", "İstanbul", "istanbul", "日本", "日本語", "a b", "a-b", "a.b", "0", "1", "10", "2", "~",
+	// a prefix directly followed by a character outside the basic multilingual plane (4-byte UTF-8, lead byte 0xF0..0xF4)
+	"a\U0001F600", "ab\U0001F600x", "ap\U0001D4B3", "z\U00010000", "\U0010FFFF"}
 var tagPool = []string{"red", "Red", "RED", "green", "blue", "Blue", "x", "X", "y", "tag1", "tag2", "é", "É"}
 var vocab = []string{"the", "a", "of", "and", "wizard", "Wizard", "gandalf", "Gandalf", "frodo", "ring", "rings", "mountain", "fire", "shadow", "king", "return", "hobbit", "elf", "dwarf", "sword", "quest", "dark", "tower", "two", "fellowship", "journey", "dragon", "gold", "river", "forest", "is", "to", "in", "it", "über", "café", "naïve", "日本", "x1", "42", "!!!", "...", "-", "don't", "e-mail"}
 
@@ -718,6 +720,22 @@ func (g *genState) genBatch(step int) batchSpec {
 				top := strings.SplitN(g.schema[0].path, ".", 2)[0]
 				b.points = append(b.points, pointSpec{id: id, doc: Val{K: kMap, M: []KV{{top, vStr("_delete")}}}})
 			}
+		}
+		// flat profile: one request that first removes and then sets the vector field of the same point (the store
+		// sees a delete and a put of one node id before its next flush)
+		if g.profile == "c04" && r.IntN(5) == 0 && len(live) > 0 && len(g.schema) > 0 && g.schema[0].kind == ixFlat {
+			ix := g.schema[0]
+			id := live[r.IntN(len(live))]
+			top := strings.SplitN(ix.path, ".", 2)[0]
+			var keep []pointSpec
+			for _, p := range b.points {
+				if p.id != id {
+					keep = append(keep, p)
+				}
+			}
+			b.points = append(keep,
+				pointSpec{id: id, doc: Val{K: kMap, M: []KV{{top, vStr("_delete")}}}},
+				pointSpec{id: id, doc: Val{K: kMap, M: []KV{{top, vVec(g.genVec(ix.dim))}}}})
 		}
 		// graph profiles: one request that removes and re-adds (or sets and then removes) the vector field of
 		// the same point. The second shape is the known finding F14 (DESIGN 9.3): the step is tagged.
